@@ -276,7 +276,7 @@ def explore(fn, max_paths=100000, verbose=False):
 
 
 def is_sym(v):
-    return isinstance(v, (SymInt, SymBool, SymBytes, SymStr))
+    return isinstance(v, (SymInt, SymBool, SymBytes, SymStr, SymReal))
 
 
 CONCRETE_HOOKS = []  # f(v) -> NOT_HANDLED | bool  (model objects that carry symbolic state)
@@ -432,11 +432,17 @@ class SymInt:
                 lo, hi = (0, b - 1) if (alo // b != ahi // b) else (alo % b, ahi % b)
         elif op in ("&", "|", "^"):
             if alo < 0 or blo < 0:
-                raise Unsupported("bit op on possibly negative int")
-            m = max(ahi, bhi)
-            lo, hi = 0, (1 << m.bit_length()) - 1
-            if op == "&":
-                hi = min(ahi, bhi)
+                # two's complement semantics of Python ints: exact after sign extension to a common width
+                if op == "&" and (alo >= 0 or blo >= 0):
+                    lo, hi = 0, (ahi if alo >= 0 else bhi)
+                else:
+                    w0 = max(SymInt.width_for(alo, ahi), SymInt.width_for(blo, bhi))
+                    lo, hi = -(1 << (w0 - 1)), (1 << (w0 - 1)) - 1
+            else:
+                m = max(ahi, bhi)
+                lo, hi = 0, (1 << m.bit_length()) - 1
+                if op == "&":
+                    hi = min(ahi, bhi)
         elif op == "<<":
             if not isinstance(b, int) or b < 0:
                 raise Unsupported("shift by symbolic")
@@ -507,6 +513,72 @@ class SymInt:
 
     def __repr__(self):
         return "SymInt(%s in [%d,%d])" % (self.e, self.lo, self.hi)
+
+
+class SymReal:
+    """exact rational/real number (z3 Real). Stands in for Python `float` where a property is decided over the
+    rationals only (true division, random.uniform): rounding of IEEE-754 doubles is NOT modelled and never claimed."""
+
+    def __init__(self, e):
+        self.e = e
+
+    @staticmethod
+    def lift(v):
+        if isinstance(v, SymReal):
+            return v.e
+        if isinstance(v, SymInt):
+            return z3.ToReal(z3.BV2Int(v.e, True))
+        if isinstance(v, bool):
+            v = int(v)
+        if isinstance(v, int):
+            return z3.RealVal(v)
+        if isinstance(v, float):
+            from fractions import Fraction
+
+            f = Fraction(v)
+            return z3.Q(f.numerator, f.denominator)
+        import fractions
+
+        if isinstance(v, fractions.Fraction):
+            return z3.Q(v.numerator, v.denominator)
+        raise Unsupported("real arithmetic on %s" % type(v).__name__)
+
+    @staticmethod
+    def binop(op, a, b):
+        x, y = SymReal.lift(a), SymReal.lift(b)
+        if op == "+":
+            return SymReal(x + y)
+        if op == "-":
+            return SymReal(x - y)
+        if op == "*":
+            return SymReal(x * y)
+        if op == "/":
+            if truth(mkbool(y == 0)):
+                raise ZeroDivisionError("division by zero")
+            return SymReal(x / y)
+        raise Unsupported("real binop " + op)
+
+    @staticmethod
+    def cmp(op, a, b):
+        x, y = SymReal.lift(a), SymReal.lift(b)
+        return mkbool({"==": x == y, "!=": x != y, "<": x < y, "<=": x <= y, ">": x > y, ">=": x >= y}[op])
+
+    def __repr__(self):
+        return "SymReal(%s)" % self.e
+
+
+def sym_real(name):
+    """fresh real-valued input (native mode: the model's rational, as a Fraction)"""
+    if is_native():
+        from fractions import Fraction
+
+        v = Ctx.cur.values.get(name, 0)
+        v = Fraction(str(v).replace("?", "")) if not isinstance(v, (int, float)) else Fraction(v)
+        Ctx.cur.inputs[name] = str(v)
+        return v
+    e = z3.Real(name)
+    Ctx.cur.inputs[name] = e
+    return SymReal(e)
 
 
 def concretize(v, what="int"):
@@ -1274,9 +1346,13 @@ def binop(op, a, b):
                 return a.repeat(b)
             return b.repeat(a)
         raise Unsupported("seq binop " + op)
+    if isinstance(a, SymReal) or isinstance(b, SymReal):
+        return SymReal.binop(op, a, b)
     if isinstance(a, SymInt) or isinstance(b, SymInt):
         if isinstance(a, (bytes, str)) and op == "*":
             return (SymBytes(list(a)) if isinstance(a, bytes) else SymStr([ord(c) for c in a])).repeat(b)
+        if op == "/":
+            return SymReal.binop(op, a, b)  # true division: exact rational (see SymReal)
         return SymInt.binop(op, a, b)
     import operator as o
 
@@ -1339,6 +1415,8 @@ def compare(op, a, b):
         if op == "!=":
             r = (not r) if isinstance(r, bool) else mkbool(z3.Not(r.e))
         return r
+    if isinstance(a, SymReal) or isinstance(b, SymReal):
+        return SymReal.cmp(op, a, b)
     if isinstance(a, SymInt) or isinstance(b, SymInt):
         if not isinstance(a, (int, SymInt)) or not isinstance(b, (int, SymInt)):
             if op == "==":
